@@ -172,6 +172,7 @@ func (w *Worker) run(entry *ssa.Function, item WorkItem, isInit bool) *PathResul
 	i.depth = 0
 	i.mapOrder = OrderInsertion
 	i.frozen, i.frozenMaps, i.frozenWrites = nil, nil, nil
+	i.lockAccs = nil
 	i.aborting = false
 	i.held = nil
 	i.jsonDecoders = nil
